@@ -91,6 +91,8 @@ def gen_cases(job):
         # its conditionals on its own, the alt stack is not carried over, the op count starts again
         for i in range(n):
             fl = gen.rnd_flags(rng) & ~F["SIGPUSHONLY"]
+            if rng.random() < 0.25:
+                fl |= F["SIGPUSHONLY"]
             st = []
             k = rng.random()
             sig = gen.strip_sigops(gen.gen_deep(rng, BASE, fl, rng.choice([1, 2, 4, 8]), [], fail_keep=0.05))
@@ -115,6 +117,13 @@ def gen_cases(job):
                 spk = bytes([OP_NOP]) * rng.choice([100, 200, 201, 202]) + spk
             if is_p2sh(spk) or not spk:
                 spk = bytes([OP_NOP]) + spk
+            if k >= 0.4 and k < 0.55:
+                # a pay-to-script-hash output: the scriptSig's last item is the redeem script; the scriptSig is push-only or not,
+                # the hash matches or not - the push-only rule is applied only after the scriptPubKey has succeeded
+                redeem = gen.strip_sigops(gen.gen_deep(rng, BASE, fl, rng.choice([1, 3, 6]), [], fail_keep=0.1))[:500] or bytes([OP_1])
+                sig = rng.choice([b'', bytes([OP_1]), bytes([OP_1, OP_DROP]), bytes([OP_NOP]), bytes([OP_2, OP_3, OP_ADD]), bytes([OP_RETURN]), bytes([OP_0, OP_VERIFY])]) + push_data(redeem)
+                h = hash160(redeem) if rng.random() < 0.8 else bytes(20)
+                spk = bytes([OP_HASH160, 20]) + h + bytes([OP_EQUAL])
             cases.append(dict(script=sig, stack=st, flags=fl, sv=BASE, layer=layer, succ=spk))
     elif layer == 'order':
         # which error wins when two rules are broken by the same operation: the operation count is checked before the disabled-opcode
@@ -208,6 +217,12 @@ def judge(case, evs, part, cont_evs=None):
         if sv == TAPSCRIPT and len(stack) > MAX_STACK_SIZE and u[0].err == 'STACK_SIZE':
             part.count('outcome', 'fail:STACK_SIZE(setup)')
             return
+        pre = Session(script, stack, flags, sv, successor=case.get('succ', b'')).prefail
+        if pre and u[0].err == pre:
+            # e.g. SIGPUSHONLY with a scriptSig that is not push-only: refused before anything is evaluated
+            part.count('outcome', 'fail:%s(setup)' % pre)
+            part.nontrivial.add(nt_hash('pre', script, flags, case.get('succ', b'')))
+            return
         part.violation('setup-fails:%s' % u[0].err, wit)
         return
     steps = [e for k, e in evs if k == 'S']
@@ -226,7 +241,7 @@ def judge(case, evs, part, cont_evs=None):
     sess = Session(script, stack, flags, sv, successor=case.get('succ', b''))
     if sess.prefail:
         # tapscript with more than 1000 initial stack items: must be refused before anything executes
-        part.violation('tapscript-initial-stack-over-1000-not-refused', wit)
+        part.violation('tapscript-initial-stack-over-1000-not-refused' if sess.prefail == 'STACK_SIZE' else 'not-refused-before-execution:' + sess.prefail, wit)
         return
     if sess.done:
         if steps or not u[0].done:
